@@ -175,6 +175,10 @@ pub fn decode(bytes: &[u8]) -> Case {
         b"".to_vec(),
         b"--k=v".to_vec(),
         b"-vvv".to_vec(),
+        // the words bpaf's own completion machinery is started with: right of `--` they are
+        // words like any other
+        b"--bpaf-complete-rev=7".to_vec(),
+        b"--bpaf-complete-rev=zsh".to_vec(),
     ];
     if let Some(c) = &cmd_name {
         nasty.push(c.as_bytes().to_vec());
@@ -323,7 +327,10 @@ pub fn decode_rest(bytes: &[u8]) -> RestCase {
     });
     let level = Level::simple(Node::Seq(fields));
     argv.push(b"--".to_vec());
-    let pool: &[&[u8]] = &[b"--", b"-x", b"--y", b"word", b"--help", b"-h", b"", b"-", b"--k=v", b"a b"];
+    let pool: &[&[u8]] = &[
+        b"--", b"-x", b"--y", b"word", b"--help", b"-h", b"", b"-", b"--k=v", b"a b",
+        b"--bpaf-complete-rev=7", b"--bpaf-complete-rev=zsh",
+    ];
     let n = u.below(5);
     let mut right = Vec::new();
     for _ in 0..n {
